@@ -936,8 +936,13 @@ fn build_sdes_body(sdes: &SourceDescription) -> Vec<u8> {
         body.extend_from_slice(&chunk.ssrc.to_be_bytes());
         for item in &chunk.items {
             body.push(item.ty);
-            body.push(item.text.len() as u8);
-            body.extend_from_slice(item.text.as_bytes());
+            // The length octet holds at most 255; clamp (on a char boundary) as BYE reasons are.
+            let mut len = item.text.len().min(255);
+            while !item.text.is_char_boundary(len) {
+                len -= 1;
+            }
+            body.push(len as u8);
+            body.extend_from_slice(&item.text.as_bytes()[..len]);
         }
         body.push(0); // End of list
         while body.len() % 4 != 0 {
